@@ -1,22 +1,29 @@
 import Hv.Driver.Core
 import Hv.Hds
+import Hv.Hdd
 namespace Hv.Driver
 open Hv
 
-/-- open a chain of HDS files `ids` (first = base ... last = top); each layer's parent is the
-    buffered *stream* of the layer below (`parent.seek(off); parent.read(n)`) -/
-def hdsChain (st : St) (align : Nat) : List String → Except Err (Option (Hds.Hds))
-  | [] => .ok none
-  | ids =>
-    ids.foldlM (fun (acc : Option Hds.Hds) id => do
+/-- open a chain of layers `ids` (first = base ... last = top); an id `raw=<id>` is a plain
+    image (raw file: `seek/read`), any other id an HDS file whose parent is the buffered *stream*
+    of the layer below (`parent.seek(off); parent.read(n)`) -/
+def hdsChain (st : St) (align : Nat) (ids : List String) : Except Err (Option (Hds.Hds)) := do
+  let mut parent : Option Hds.Reader := none
+  let mut top : Option Hds.Hds := none
+  for id in ids do
+    if id.startsWith "raw=" then
+      let some f := st.file? (id.drop 4).toString | throw .other
+      parent := some (fun off n => .ok (f.read off n))
+      top := none
+    else
       let some fh := st.file? id | throw .other
-      let parent : Option Hds.Reader := acc.map (fun pv =>
-        fun off n => (do
-          let (_, s) ← (AS.init pv.size align).seek off .set
-          let (b, _) ← s.read pv.read n
-          pure b))
       let v ← Hds.open fh parent
-      pure (some v)) none
+      top := some v
+      parent := some (fun off n => (do
+        let (_, s) ← (AS.init v.size align).seek off .set
+        let (b, _) ← s.read v.read n
+        pure b))
+  pure top
 
 /-- guest content of a chain, layer by layer -/
 def hdsChainGuest (st : St) : List String → (Nat → UInt8)
@@ -48,6 +55,51 @@ def hdsCmd (st : St) : List String → String
     | some o, some l, .ok (some v) => fmtBytes (slice (hdsChainGuest st ids) o (min l (v.size - o)))
     | _, _, .error e => s!"err {e}"
     | _, _, _ => "bad-args"
+  | _ => "bad-cmd"
+
+end Hv.Driver
+
+namespace Hv.Driver
+open Hv
+
+/-- storage tokens `start:end:P:<id>` (plain image) or `start:end:H:<id1>+<id2>…` (HDS chain, base first) -/
+def parseStorage (st : St) (align : Nat) (tok : String) : Except Err Hdd.Storage :=
+  match tok.splitOn ":" with
+  | [a, b, kind, ids] =>
+    match a.toNat?, b.toNat? with
+    | some s, some e =>
+      if kind = "P" then
+        match st.file? ids with
+        | some f => .ok ⟨s, e, fun off n => .ok (f.read off n)⟩
+        | none => .error .other
+      else do
+        let some v ← hdsChain st align (ids.splitOn "+") | throw .other
+        .ok ⟨s, e, fun off n => do
+          let (_, s0) ← (AS.init v.size align).seek off .set
+          let (d, _) ← s0.read v.read n
+          pure d⟩
+    | _, _ => .error .other
+  | _ => .error .other
+
+def hddCmd (st : St) : List String → String
+  | "hdd.stream" :: align :: ns :: rest =>
+    match align.toNat?, ns.toNat? with
+    | some a, some k =>
+      match (rest.take k).mapM (parseStorage st a) with
+      | .ok storages =>
+        let v := Hdd.mk storages
+        runStream v.read v.size a (rest.drop k)
+      | .error e => s!"err {e}"
+    | _, _ => "bad-args"
+  | "hdd.chain" :: null :: guid :: shots =>
+    let ps := shots.filterMap (fun t => match t.splitOn ">" with
+      | [g, p] => match g.toNat?, p.toNat? with | some a, some b => some (a, b) | _, _ => none
+      | _ => none)
+    match null.toNat?, guid.toNat? with
+    | some n, some g => match Hdd.snapshotChain ps n g with
+      | .ok c => "ok " ++ " ".intercalate (c.map toString)
+      | .error e => s!"err {e}"
+    | _, _ => "bad-args"
   | _ => "bad-cmd"
 
 end Hv.Driver
